@@ -275,6 +275,28 @@ func (g *G) dimensions(o dimOpts) influxql.Dimensions {
 		if i > 0 {
 			b.P(",")
 		}
+		if g.Opt.Odd && !o.needTime && g.Rg.P(0.4) {
+			// odd but accepted dimensions
+			var e influxql.Expr
+			switch g.Rg.Intn(6) {
+			case 0:
+				e = &influxql.Call{Name: "time"}
+			case 1:
+				e = &influxql.Call{Name: "time", Args: []influxql.Expr{&influxql.DurationLiteral{Val: 0}, &influxql.DurationLiteral{Val: time.Second}}}
+			case 2:
+				e = &influxql.Call{Name: "time", Args: []influxql.Expr{g.Tree(CtxCond, 1), g.Tree(CtxCond, 1), g.Tree(CtxCond, 0)}}
+			case 3:
+				e = &influxql.Call{Name: g.Rg.Pick("foo", "time", "mean"), Args: []influxql.Expr{g.Ref()}}
+			case 4:
+				e = &influxql.Call{Name: "time", Args: []influxql.Expr{&influxql.DurationLiteral{Val: -time.Minute}, &influxql.StringLiteral{Val: "2000-01-01T00:00:00Z"}}}
+			default:
+				e = g.Tree(CtxCond, 2)
+			}
+			g.Emit(e)
+			out = append(out, &influxql.Dimension{Expr: e})
+			g.feat("dim.odd")
+			continue
+		}
 		switch {
 		case i == timeAt:
 			c := &influxql.Call{Name: "time", Args: []influxql.Expr{&influxql.DurationLiteral{Val: g.posDur()}}}
